@@ -1705,6 +1705,11 @@ func teardownScript(x *g) interface{} {
 			// a: subscriber that stops reading; b: publisher flooding it
 			a.Ops = append(a.Ops, mk(0, ka(), r.Bool(1, 2), r.Bool(1, 2)), Op{K: "sub", PID: 1, Filters: []string{"t/#"}, QoSs: []byte{byte(r.Intn(3))}}, Op{K: "stall"}, Op{K: "barrier"}, Op{K: "barrier"})
 			a.AckMode = "none"
+			if r.Bool(1, 3) {
+				// one more SUBSCRIBE while its own outgoing ring is full: the
+				// SUBACK can only be written once the ring is closed
+				a.Ops = append(a.Ops, Op{K: "sub", PID: 2, Filters: []string{"extra/#"}, QoSs: []byte{byte(r.Intn(3))}, NoWait: true})
+			}
 			total := 16384 + 4096 + x.sc.Knobs.LinkCap
 			if cond == 2 {
 				total = 3*16384 + 8192
